@@ -39,11 +39,17 @@ func ZZ_C23_accumulator() {
 	blk.Extrinsic.Tickets = ext
 	// slots: tau' index inside the window (3) or in the tail (10, 11); epoch change or not
 	mPrime := []uint32{3, 10, 11}[zzvt.Range("slotIndex", 0, 2)]
-	epochChange := zzvt.Bool("epochChange")
+	// the prior slot lies in the same epoch, in the previous one, or two epochs back (a block
+	// after skipped epochs): any later epoch restarts the accumulator
+	gap := zzvt.Range("epochGap", 0, 2)
+	epochChange := gap > 0
 	tauPrime := uint32(5*E) + mPrime
 	tau := tauPrime - 1
-	if epochChange {
+	switch gap {
+	case 1:
 		tau = uint32(5*E) - 1
+	case 2:
+		tau = uint32(3*E) + 2
 	}
 	blk.Header.Slot = types.TimeSlot(tauPrime)
 	zzSetLatest(blk)
